@@ -54,8 +54,9 @@ RUNTIME["C16"] = (["single", "array", "nc", "enumf", "custom", "mixed", "base", 
                   "(group, case) pairs whose complete monitored workload (getters, with_/set_, array indices in and out of range, histories, builder, constants, Debug) produced identical observation digests under every build profile with no panic other than for an out-of-range array index",
                   ["w=S", "|full|", "|top|", "s128|", "s128arb|", "range[]", "list"])
 
-GLUE_OWNERS = {"glue-get": ("C01", "C04", "C05", "C08"), "glue-put": ("C02", "C04", "C05", "C08"), "glue-build": ("C13",), "glue-debug": ("C19",),
-               "glue-consts": ("C06",), "glue-core": ("C06",), "glue-enum": ("C07", "C10")}
+# C16 (totality over every family) owns every part: a case whose documented use stops compiling is never dropped without a verdict
+GLUE_OWNERS = {"glue-get": ("C01", "C04", "C05", "C08", "C19", "C16"), "glue-put": ("C02", "C04", "C05", "C08", "C16"), "glue-build": ("C13", "C16"), "glue-debug": ("C19", "C16"),
+               "glue-consts": ("C06", "C16"), "glue-core": ("C06", "C16"), "glue-enum": ("C07", "C10", "C16")}
 GLUE_WHAT = {"glue-get": "calling a getter and converting its result", "glue-put": "calling with_/set_ with a value of the field type", "glue-build": "the builder chain in declaration order",
              "glue-debug": "formatting with {:?}", "glue-consts": "ZERO / DEFAULT / Default::default() / new() / Copy / size_of", "glue-core": "new_with_raw_value / raw_value",
              "glue-enum": "new_with_raw_value with its documented result type (the enum itself when exhaustive, Result<enum, storage integer> otherwise) and raw_value"}
